@@ -98,8 +98,19 @@ func readAllWith(o *out, id string, stream []byte, withMeta bool, expect [][]ele
 	for it.Next() {
 		c := it.Chunk()
 		n++
+		// the two per-chunk iterators report the chunk's metadata with every sample; where one of them reports something
+		// else, that is what the chunk line carries (so that the metadata oracle sees it)
+		fd, fm, _ := drainIter(c.Iterator(ctx), true)
+		sd, sm, _ := drainIter(c.StructuredIterator(ctx), true)
+		mdHex := docHex(c.GetMetadata())
+		for _, m := range append(fm, sm...) {
+			if m != mdHex {
+				mdHex = m
+				break
+			}
+		}
 		var sb strings.Builder
-		fmt.Fprintf(&sb, "C %d %d %s", c.Size(), len(c.Metrics), docHex(c.GetMetadata()))
+		fmt.Fprintf(&sb, "C %d %d %s", c.Size(), len(c.Metrics), mdHex)
 		for _, m := range c.Metrics {
 			vs := make([]string, len(m.Values))
 			for i, v := range m.Values {
@@ -108,8 +119,6 @@ func readAllWith(o *out, id string, stream []byte, withMeta bool, expect [][]ele
 			fmt.Fprintf(&sb, " K:%s:%s", hex.EncodeToString([]byte(m.Key())), strings.Join(vs, ","))
 		}
 		lines = append(lines, sb.String())
-		fd, _, _ := drainIter(c.Iterator(ctx), false)
-		sd, _, _ := drainIter(c.StructuredIterator(ctx), false)
 		perChunkFlat = append(perChunkFlat, fd...)
 		perChunkStruct = append(perChunkStruct, sd...)
 	}
